@@ -47,11 +47,31 @@ class Spec(L.Spec):
         depth = 6 if tier == "quick" else None
         super().__init__(role == "client", depth, upgraded=(start == "upgraded"))
         self.name = "c06-%s-%s-%s" % (role, start, tier)
+        f, aux = self.sids
+        # a WINDOW_UPDATE that overflows the stream's send window (the library must reset the stream, which then IS reset), and a
+        # header block on the focus stream continued on the auxiliary stream
+        self.menu = self.menu[:-1] + ["rx:wuover:%d" % f, "rx:splitcont:%d" % f] + self.menu[-1:]
         if not self.client:
             # the local alt-svc action of the quantifier: whatever it does (C24 judges that), it is no stream transition
             self.menu = self.menu[:-1] + ["l:altsvc:%d" % self.sids[0]] + self.menu[-1:]
 
     def execute(self, st, lab):
+        if lab.startswith("rx:wuover:") or lab.startswith("rx:splitcont:"):
+            sid = int(lab.split(":")[2])
+            m = st.h.m
+            s = m.get(sid)
+            info = {"dir": "rx", "kind": lab.split(":")[1], "es": False, "sid": sid, "status": m.status(sid),
+                    "state": s.state if s is not None else "idle", "closed_by": s.closed_by if s is not None else None,
+                    "sent": s.sent if s is not None else "none", "recv": s.recv if s is not None else "none"}
+            if info["kind"] == "wuover":
+                base = SM.recv_verdict(m, "wu", sid)
+                info["verdict"] = {("SE", wire.FLOW_CONTROL_ERROR)} if SM.OK in base else base
+                o = st.h.rx([wire.window_update(sid, 2 ** 31 - 1)])
+            else:
+                blk = L.sb(L.BLOCKS["trailers"])
+                info["verdict"] = {("CE", wire.PROTOCOL_ERROR)}
+                o = st.h.rx([wire.headers(sid, blk[:3], es=True, eh=False), wire.continuation(self.sids[1], blk[3:])])
+            return o, info
         if lab.startswith("l:altsvc:"):
             sid = int(lab.split(":")[2])
             m = st.h.m
